@@ -34,7 +34,7 @@ def build_cases(ctx, n):
     return cases, meta, consts
 
 
-def shards(ctx, rd, cases, per, q1="Q1_exp", q2="Q2_exp", tag="C01"):
+def shards(ctx, rd, cases, per, q1="Q1_neg", q2="Q2_neg", tag="C01"):
     files = []
     for si in range(0, len(cases), per):
         txt = H.HEADER + "\nDefinition cases : list case := [\n" + ";\n".join(cases[si:si + per]) + "].\n" + \
